@@ -65,9 +65,23 @@ def _record(c: Ctx, n_cex: int, found: list, p: "Prog", what: str) -> None:
         found.append((p, c.cex[-1].model, what))
 
 
+class TracedList:
+    """Spec-side stand-in for a list[int] argument of symbolic length: item stores are observable events."""
+
+    def __init__(self, n: Any, events: list):
+        self.n = n
+        self.events = events
+
+    def __setitem__(self, idx: Any, v: Any) -> None:
+        i = idx if symx.is_sym(idx) else SymInt(z3.IntVal(int(idx)))
+        if bool(symx.SymBool(z3.Or(i.t < -self.n.t, i.t >= self.n.t))):
+            raise IndexError("list assignment index out of range")
+        self.events.append((z3.If(i.t < 0, i.t + self.n.t, i.t), symx.to_z3int(v)))
+
+
 def check_program(p: Prog, fn_ir: Any, found: list, stats: dict, timeout_ms: int = 30000, max_paths: int = 3000) -> Ctx:
     ns = py_namespace()
-    src = "\n".join(l for l in p.src.splitlines() if not l.startswith("from mypy_extensions"))
+    src = "\n".join(l for l in p.src.splitlines() if not l.startswith(("from mypy_extensions", "from typing")))
     exec(compile(src, "<spec>", "exec"), ns)
     pyfn = ns[p.name]
     ctx = Ctx(timeout_ms=timeout_ms, max_paths=max_paths)
@@ -88,6 +102,13 @@ def check_program(p: Prog, fn_ir: Any, found: list, stats: dict, timeout_ms: int
                 c.solver.add(v == m.val(w))
                 words.append(w)
                 vals.append(SymInt(v))
+            elif ty == "list":
+                words.append(z3.Int("w_" + nm))  # an opaque object word
+                ln = c.int("len_" + nm, 0, 1 << 40)
+                c.list_len = ln.t  # type: ignore[attr-defined]
+                c.ir_events = []  # type: ignore[attr-defined]
+                c.spec_events = []  # type: ignore[attr-defined]
+                vals.append(TracedList(ln, c.spec_events))  # type: ignore[attr-defined]
             elif ty == "bool":
                 bvar = c.bool("v_" + nm)
                 words.append(z3.If(bvar.t, z3.IntVal(1), z3.IntVal(0)))
@@ -108,10 +129,22 @@ def check_program(p: Prog, fn_ir: Any, found: list, stats: dict, timeout_ms: int
             spec: tuple = ("value", pyfn(*vals))
         except (PathAbort, Unsupported):
             raise
-        except (ZeroDivisionError, ValueError, OverflowError) as e:
+        except (ZeroDivisionError, ValueError, OverflowError, IndexError) as e:
             spec = ("raises", type(e).__name__)
         stats["paths"] += 1
         label = f"{p.name}: compiled = interpreted"
+        if hasattr(c, "ir_events"):
+            ie, se = c.ir_events, c.spec_events  # type: ignore[attr-defined]
+            if len(ie) != len(se):
+                c.stats["assert_queries"] += 1
+                c.stats["refuted"] += 1
+                found.append((p, c.path_model(), f"compiled performs {len(ie)} list stores, the interpreter {len(se)}"))
+                return
+            if ie:
+                ok_ev = c.check(z3.And(*[z3.And(a_[0] == b_[0], a_[1] == b_[1]) for a_, b_ in zip(ie, se)]), label + " (list stores: same slots, same values, same order)")
+                if not ok_ev:
+                    _record(c, n_cex, found, p, "compiled stores into a different list slot (or a different value) than the interpreter")
+                    return
         if spec[0] == "raises":
             if comp[0] == "raises":
                 ok = comp[1] == spec[1]
@@ -235,6 +268,24 @@ def one_op_programs() -> list[Prog]:
     return out
 
 
+def assign_programs() -> list[Prog]:
+    """Tuple assignments whose later targets depend on earlier ones (evaluation order of targets)."""
+    shapes = [
+        ("i, a[i + 1] = x, y", "i"),
+        ("a[i], i = x, y", "i"),
+        ("i, a[i] = x, y", "i"),
+        ("a[i], a[j] = x, y", "i"),
+        ("i, j, a[i + j] = x, y, x", "i + j"),
+        ("j, a[j - 1], i = x, y, x", "i + j"),
+        ("i = x\n    a[i] = y\n    a[i + 1] = x", "i"),
+    ]
+    out = []
+    for k, (stmt, ret) in enumerate(shapes):
+        src = f"from typing import List\ndef as{k}(a: List[int], i: int, j: int, x: int, y: int) -> int:\n    {stmt}\n    return {ret}\n"
+        out.append(Prog(f"as{k}", src, [("a", "list"), ("i", "int"), ("j", "int"), ("x", "int"), ("y", "int")], "int", f"assignment order: {stmt.splitlines()[0]}"))
+    return out
+
+
 def gen_programs(seed: int, count: int, loops: bool = False) -> list[Prog]:
     rng = random.Random(seed + (7919 if loops else 0))
     out: list[Prog] = []
@@ -341,6 +392,12 @@ def build_all(progs: list[Prog]) -> dict:
 def render_args(p: Prog, model: dict) -> "list | None":
     args = []
     for nm, ty in p.params:
+        if ty == "list":
+            n = model.get("len_" + nm)
+            if n is None or int(n) > 64:
+                return None
+            args.append([0] * int(n))
+            continue
         v = model.get("v_" + nm)
         if v is None:
             return None
